@@ -32,6 +32,7 @@ SpellTab(t) ==
     [] t = "sp" -> {Ch3("%", "2", "0")}
     [] t = "sl" -> {Ch3("%", "2", "F"), Ch3("%", "2", "f")}
     [] t = "pc" -> {Ch3("%", "2", "5")}
+    [] t = "bz" -> {Ch3("%", "G", "G")}
     [] t = "ff" -> {Ch3("%", "F", "F"), Ch3("%", "F", "E"), Ch3("%", "f", "f")}
     [] t = "c3" -> {Ch3("%", "C", "3"), Ch3("%", "E", "3"), Ch3("%", "F", "0")}
     [] t = "mb" -> {Ch3("%", "C", "3") \o Ch3("%", "B", "C"), Ch3("%", "c", "3") \o Ch3("%", "b", "c"),
@@ -69,7 +70,7 @@ IntDetail(ty, toks) ==
     [] c = "not-an-integer" -> IF n = 0 THEN "no-digits"
                                ELSE IF Beyond64(ty, neg, mag) THEN "wrapprefix+garbage" ELSE "prefix+garbage"
     [] OTHER -> c
-StrDetail(ty, toks) == (IF SegBad(toks) THEN "not-utf8" ELSE IF SegEsc(toks) THEN "escaped" ELSE "plain") \o (IF ty = "str" THEN ":borrowed" ELSE "")
+StrDetail(ty, toks) == (IF SegBad(toks) THEN "not-utf8" ELSE IF SegInvalid(toks) THEN "invalid-escape" ELSE IF SegEsc(toks) THEN "escaped" ELSE "plain") \o (IF ty = "str" THEN ":borrowed" ELSE "")
 ParamClass(ty, toks) == IF ty \in IntTy THEN "int:" \o IntDetail(ty, toks) ELSE "str:" \o StrDetail(ty, toks)
 ItemClass(it, rq) == it.x \o (IF it.opt THEN ":opt:" ELSE ":req:") \o Carried(it, rq).st
                      \o (IF it.x \in BodyX /\ rq.ct.mime = it.x /\ rq.ct.var = "case" THEN ":case" ELSE "")
